@@ -409,7 +409,7 @@ class PipelineRun:
             except ImportError:
                 pass
         self.phase = "finish"
-        tf = os.path.join(self.out_dir, f"test_{self.case['module']}.py")
+        tf = os.path.join(self.out_dir, f"test_{self.case['module'].rsplit('.', 1)[-1]}.py")
         if os.path.exists(tf):
             self.test_file = open(tf, "rb").read()
         if self.error is None:
